@@ -3,27 +3,151 @@ from fractions import Fraction as Fr
 
 from ..nf import Rat, C
 from ..source import Unsupported, AnchorError, ClassInfo
-from ..xlate import Interp, Obj, ListV, DictV, Raised
+from ..xlate import Interp, Obj, ListV, DictV, Raised, _RaisedExc
 from .common import same, show
 
 XL = 'pmutt.io.excel'
 NAN = None      # an empty cell
+BOOK = '/dir/book.xlsx'
+INT_CELLS = set()       # names of the symbolic cells that stand for Python ints (a column typed without decimals)
 
 
-def sheet(I, rows):
+def a(name):
+    """a numeric cell read as a float"""
+    return Rat.atom(name)
+
+
+def ai(name):
+    """a numeric cell of a column typed without decimals: pandas hands it over as an int"""
+    INT_CELLS.add(name)
+    return Rat.atom(name)
+
+
+class Members(dict):
+    """the members of a pandas mock.  A member the mock does not model is a refusal (Unsupported, exit 2): the real
+    object has many more members than the mock, so their absence here says nothing about the program"""
+
+    def __init__(self, what):
+        dict.__init__(self)
+        self.what = what
+
+    def __contains__(self, k):
+        if dict.__contains__(self, k):
+            return True
+        if isinstance(k, str) and k.startswith('__') and k.endswith('__'):
+            return False
+        raise Unsupported('%s.%s is not modelled by the pandas mock of rule C15' % (self.what, k))
+
+    def __bool__(self):
+        return True
+
+
+def _plain(what, meth, fn):
+    """a member called without arguments (anything else is outside the mock)"""
+    def call(I, o, args, kwargs):
+        if args or kwargs:
+            raise Unsupported('%s.%s(...) with arguments is not modelled by the pandas mock of rule C15' % (what, meth))
+        return fn()
+    return call
+
+
+def series(label, cells):
+    """mock of one row (a pandas Series): cells = [(header, cell), ...] in column order"""
+    row = Obj('row%s' % label, closed=True)
+    row.isa.add('Series')
+    m = row.opaque_methods = Members('Series')
+    heads = [h for h, _ in cells]
+    vals = [v for _, v in cells]
+
+    def flags(null):
+        return series(label, [(h, (v is NAN) == null) for h, v in cells])
+    for meth, fn in (('items', lambda: ListV([ListV([h, v]) for h, v in cells])),
+                     ('dropna', lambda: series(label, [(h, v) for h, v in cells if v is not NAN])),
+                     ('isna', lambda: flags(True)), ('isnull', lambda: flags(True)),
+                     ('notna', lambda: flags(False)), ('notnull', lambda: flags(False)),
+                     ('keys', lambda: ListV(heads)), ('tolist', lambda: ListV(vals)), ('to_list', lambda: ListV(vals)),
+                     ('to_dict', lambda: DictV(dict(cells))), ('copy', lambda: series(label, cells)),
+                     ('count', lambda: C(len([v for v in vals if v is not NAN]))),
+                     ('__len__', lambda: C(len(cells))), ('__iter__', lambda: ListV(vals))):
+        m[meth] = _plain('Series', meth, fn)
+    row.attrs.update({'index': ListV(heads), 'values': ListV(vals), 'size': C(len(cells)), 'empty': not cells})
+    row.cells = cells
+
+    # row[label] / row[boolean mask of the same row] / label in row (used once the interpreter consults the protocol
+    # members of an opaque object, see REQ2_C15; until then it answers a subscript of any opaque object itself)
+    def getitem(I, o, args, kwargs):
+        idx = args[0]
+        if isinstance(idx, str):
+            hit = [v for h, v in cells if h == idx]
+            if len(hit) == 1:
+                return hit[0]
+            if not hit:
+                raise _RaisedExc(Raised('KeyError', None, [idx]))
+        if isinstance(idx, Obj) and [h for h, _ in getattr(idx, 'cells', [(None, None)])] == heads and \
+                all(isinstance(v, bool) for _, v in idx.cells):
+            return series(label, [c_ for c_, (_, keep) in zip(cells, idx.cells) if keep])
+        raise Unsupported('Series[%r] is not modelled by the pandas mock of rule C15' % (idx,))
+
+    def contains(I, o, args, kwargs):
+        if isinstance(args[0], str):
+            return args[0] in heads
+        raise Unsupported('%r in Series is not modelled by the pandas mock of rule C15' % (args[0],))
+    m['__getitem__'] = getitem
+    m['__contains__'] = contains
+    return row
+
+
+def sheet(rows, headers=None):
     """mock of the DataFrame pandas returns: rows = list of [(header, cell), ...]"""
     df = Obj('df', closed=True)
+    df.isa.add('DataFrame')
+    m = df.opaque_methods = Members('DataFrame')
+    if headers is None:
+        headers = [h for h, _ in rows[0]] if rows else []
 
-    def iterrows(I_, o, a, k):
-        out = []
-        for ri, cells in enumerate(rows):
-            row = Obj('row%d' % ri, closed=True)
-            row.opaque_methods['items'] = (lambda I2, o2, a2, k2, cells=cells:
-                                           ListV([ListV([h, v]) for h, v in cells]))
-            out.append(ListV([C(ri), row]))
-        return ListV(out)
-    df.opaque_methods['iterrows'] = iterrows
+    def to_dict(I, o, args, kwargs):
+        orient = kwargs.get('orient', args[0] if args else 'dict')
+        if orient != 'records' or len(args) + len(kwargs) != 1:
+            raise Unsupported('DataFrame.to_dict is modelled for orient="records" only (pandas mock of rule C15)')
+        return ListV([DictV(dict(cells)) for cells in rows])
+    m['iterrows'] = _plain('DataFrame', 'iterrows', lambda: ListV([ListV([C(ri), series(ri, cells)])
+                                                                   for ri, cells in enumerate(rows)]))
+    m['to_dict'] = to_dict
+    m['__len__'] = _plain('DataFrame', '__len__', lambda: C(len(rows)))
+    m['__iter__'] = _plain('DataFrame', '__iter__', lambda: ListV(headers))
+    df.attrs.update({'empty': not rows or not headers, 'columns': ListV(headers),
+                     'index': ListV([C(i) for i in range(len(rows))]),
+                     'shape': ListV([C(len(rows)), C(len(headers))]), 'size': C(len(rows) * len(headers))})
     return df
+
+
+def _null(I_, fr, args, kwargs, n):
+    if len(args) != 1 or kwargs or isinstance(args[0], (Obj, ListV, DictV)):
+        raise Unsupported('pandas null test of something that is not one cell (pandas mock of rule C15)', n)
+    return args[0] is NAN
+
+
+def new_interp(repo, book, seen=None):
+    """an interpreter whose pandas.read_excel answers with book(what pandas was given) -> rows"""
+    I = Interp(repo)
+    I.int_syms.update(INT_CELLS)
+
+    def reader(I_, fr, args, kwargs, n):
+        kw = dict(kwargs)
+        if len(args) > 2:
+            raise Unsupported('pandas.read_excel with more than two positional arguments', n)
+        for nm, v in zip(('io', 'sheet_name'), args):
+            kw[nm] = v
+        if seen is not None:
+            seen.append(kw)
+        return sheet(book(kw))
+    I.native['pandas.read_excel'] = reader
+    for nm in ('isnull', 'isna'):
+        I.native['pandas.' + nm] = _null
+    for nm in ('notnull', 'notna'):
+        I.native['pandas.' + nm] = lambda I_, fr, args, kwargs, n: not _null(I_, fr, args, kwargs, n)
+    I.native['os.path.dirname'] = lambda I_, fr, a_, k_, n: '/dir'
+    return I
 
 
 def run_reader(repo, rows):
@@ -31,12 +155,18 @@ def run_reader(repo, rows):
     fn = m.functions.get('read_excel')
     if fn is None:
         raise AnchorError(XL + '.read_excel not found')
-    I = Interp(repo)
-    I.native['pandas.read_excel'] = lambda I_, fr, a, k, n: sheet(I_, rows)
-    I.native['pandas.isnull'] = lambda I_, fr, a, k, n: a[0] is None
-    I.native['os.path.dirname'] = lambda I_, fr, a, k, n: '/dir'
-    out = I.call_function(m, fn, [], {'io': '/dir/book.xlsx'})
+    I = new_interp(repo, lambda kw: rows)
+    out = I.call_function(m, fn, [], {'io': BOOK})
     return I, out, m, fn
+
+
+# the defaults pandas documents for read_excel (pandas.read_excel.__doc__ / signature): spelling one of them out asks
+# pandas for the same table
+PANDAS_DEFAULTS = {'sheet_name': C(0), 'header': C(0), 'names': None, 'index_col': None, 'usecols': None, 'dtype': None,
+                   'engine': None, 'converters': None, 'true_values': None, 'false_values': None, 'skiprows': None,
+                   'nrows': None, 'na_values': None, 'keep_default_na': True, 'na_filter': True, 'verbose': False,
+                   'parse_dates': False, 'date_format': None, 'thousands': None, 'decimal': '.', 'comment': None,
+                   'skipfooter': C(0), 'storage_options': None, 'engine_kwargs': None}
 
 
 def val_same(a, b):
@@ -85,9 +215,20 @@ def check(run, repo):
         '(the attributes the documentation lists per preset - the rule carries its own copy of that table -, unless '
         'the row set the key), every documented per-mode model name resolved in the module of its mode with the '
         'EmptyMode fallback; empty cells never appear and nothing leaks from one row into another (rows with disjoint '
-        'column subsets, rows that share a name or every cell, two rows using the same preset).')
-    run.assumptions = ['pandas.read_excel is mocked: iterrows()/items() yield (header, cell) pairs in column order; '
-                       'pandas.isnull is true exactly for empty cells']
+        'column subsets, rows that share a name or every cell, two rows using the same preset). Numeric cells are '
+        'floats or Python ints (a column typed without decimals) or zero, text cells include placeholders like "-"; '
+        'numbered columns run up to the two-digit pandas suffixes (30 vib_wavenumber, 12 rot_temperature and list '
+        'columns), list / dict names may end in a digit; a model cell wins over the preset on either side of '
+        'statmech_model for every mode; one interpreter reads nine worksheets one after the other (same workbook, '
+        'other sheet / rows to skip / header row, another workbook): every call hands its arguments to pandas and '
+        'returns the records of the table pandas answered with.')
+    run.assumptions = ['pandas.read_excel is mocked: the DataFrame offers iterrows(), to_dict("records"), len, empty, '
+                       'columns, shape, index; a row offers items(), dropna(), isna()/notna(), keys(), index, values, '
+                       'tolist(), to_dict(), count(), len - (header, cell) pairs in column order; any other member of '
+                       'the mocks is a refusal (exit 2); pandas.isnull/isna (notnull/notna) are true (false) exactly '
+                       'for empty cells',
+                       'keywords that the caller did not give may reach pandas.read_excel with the default pandas '
+                       'documents for them (pandas 3.0 signature)']
     run.undecided = ['pandas behaviour itself (duplicate-header mangling, NaN detection, dtype guessing)',
                      'atoms / vib_outcar columns (ASE and VASP file readers)']
     m = repo.module(XL)
@@ -101,8 +242,6 @@ def check(run, repo):
     SM = sm.classes.get('StatMech')
     EM = sm.classes.get('EmptyMode')
 
-    def a(name):
-        return Rat.atom(name)
     zeros = lambda: [C(0)] * 7
 
     def arr7(**kw):
@@ -110,44 +249,103 @@ def check(run, repo):
         for k, x in kw.items():
             v[int(k[1:])] = x
         return v
+    fn = m.functions['read_excel']
     # --- what pandas is asked to read: the rows the caller wants skipped (the comment row by default, none when
-    #     the sheet has no comment row), the header row, the workbook and every pandas option are passed on as given
+    #     the sheet has no comment row), the header row, the workbook and every pandas option are passed on as given.
+    #     A keyword the caller did not give may be spelled out with the default pandas documents for it (same request)
+
+    def forwarded(label, given, kw, positional=False):
+        want = {'io': BOOK, 'skiprows': ListV([C(1)]), 'header': C(0)}
+        want.update(given)
+        ok = kw is not None and all(k in kw and val_same(kw[k], want[k]) for k in want) and \
+            all(k in PANDAS_DEFAULTS and val_same(kw[k], PANDAS_DEFAULTS[k]) for k in kw if k not in want)
+        run.check(ok, 'FWD.pandas', 'excel.read_excel', label,
+                  '[%s] pandas.read_excel is %s, expected %s (other keywords only with the default pandas documents): '
+                  'the rows to skip (second row reserved for comments unless the caller says otherwise), the header '
+                  'row, the worksheet and the pandas options must be passed on as given'
+                  % (label, 'not called' if kw is None else 'called with %s' % {k: show(v, 40) for k, v in sorted(kw.items())},
+                     {k: show(v, 40) for k, v in sorted(want.items())}), m, fn,
+                  sample='[%s] forwarded to pandas: %s' % (label, sorted(want)))
     for label, given in (('default', {}), ('no comment row: skiprows=[]', {'skiprows': ListV([])}),
                          ('no comment row: skiprows=None', {'skiprows': None}),
                          ('skiprows=[1, 2]', {'skiprows': ListV([C(1), C(2)])}),
-                         ('header=2', {'header': C(2)}), ('sheet_name', {'sheet_name': 'Sheet7'})):
-        I = Interp(repo)
-        seen = {}
+                         ('header=2', {'header': C(2)}), ('sheet_name', {'sheet_name': 'Sheet7'}),
+                         ('sheet by position: sheet_name=2', {'sheet_name': C(2)}),
+                         ('pandas options: na_values, usecols, dtype', {'na_values': 'n/a', 'usecols': 'A:F',
+                                                                        'dtype': DictV({'name': 'str'})}),
+                         ('workbook given positionally', {})):
+        seen = []
+        I = new_interp(repo, lambda kw: [], seen)
+        if label == 'workbook given positionally':
+            I.call_function(m, fn, [BOOK], dict(given))
+        else:
+            I.call_function(m, fn, [], dict({'io': BOOK}, **given))
+        forwarded(label, given, seen[0] if len(seen) == 1 else None)
+    # --- several calls in ONE interpreter (what every script does: one workbook, several worksheets, the same
+    #     sheet read again with other rows skipped): each call asks pandas for what it was given and returns the records
+    #     of the table pandas answered with - nothing is remembered between calls
+    OTHER = '/dir/other.xlsx'
+    schedule = [('sheet refs', {'io': BOOK, 'sheet_name': 'refs'}),
+                ('sheet species of the same workbook', {'io': BOOK, 'sheet_name': 'species'}),
+                ('sheet refs of another workbook', {'io': OTHER, 'sheet_name': 'refs'}),
+                ('sheet refs without comment row (skiprows=[])', {'io': BOOK, 'sheet_name': 'refs', 'skiprows': ListV([])}),
+                ('sheet refs, header in the second row', {'io': BOOK, 'sheet_name': 'refs', 'header': C(1)}),
+                ('no sheet_name (first sheet)', {'io': BOOK}),
+                ('sheet by position 1', {'io': BOOK, 'sheet_name': C(1)}),
+                ('sheet refs again', {'io': BOOK, 'sheet_name': 'refs'}),
+                ('sheet species again, dtype given', {'io': BOOK, 'sheet_name': 'species', 'dtype': 'object'})]
 
-        def reader(I_, fr, a_, k_, n_, seen=seen):
-            seen['args'], seen['kwargs'] = list(a_), dict(k_)
-            return sheet(I_, [])
-        I.native['pandas.read_excel'] = reader
-        I.native['pandas.isnull'] = lambda I_, fr, a_, k_, n_: a_[0] is None
-        I.native['os.path.dirname'] = lambda I_, fr, a_, k_, n_: '/dir'
-        fn = m.functions['read_excel']
-        I.call_function(m, fn, [], dict({'io': '/dir/book.xlsx'}, **given))
-        kw = dict(seen.get('kwargs', {}))
-        if seen.get('args'):
-            kw.setdefault('io', seen['args'][0])
-        want = {'io': '/dir/book.xlsx', 'skiprows': ListV([C(1)]), 'header': C(0)}
-        want.update(given)
-        ok = set(kw) == set(want) and all(val_same(kw[k], want[k]) if isinstance(want[k], (Rat, ListV)) else
-                                          kw[k] == want[k] for k in want)
-        run.check(ok, 'FWD.pandas', 'excel.read_excel', label,
-                  '[%s] pandas.read_excel is called with %s, expected %s: the rows to skip (second row reserved for '
-                  'comments unless the caller says otherwise), the header row and the pandas options must be passed '
-                  'on as given' % (label, {k: show(v, 40) for k, v in sorted(kw.items())},
-                                   {k: show(v, 40) for k, v in sorted(want.items())}), m, fn,
-                  sample='[%s] forwarded to pandas: %s' % (label, sorted(want)))
+    def request(kw):
+        """what a call asks pandas for, pandas' defaults filled in: identifies the table pandas answers with"""
+        full = dict(PANDAS_DEFAULTS)
+        full.update(kw)
+        return tuple((k, show(full[k], 60)) for k in ('io', 'sheet_name', 'skiprows', 'header'))
+    tables = {}
+    for label, given in schedule:
+        req = request(dict({'skiprows': ListV([C(1)]), 'header': C(0)}, **given))
+        if req not in tables:
+            t_ = 'T%d' % len(tables)
+            tables[req] = (t_, len(tables) % 3 + 1 + len(tables) // 3)
+
+    def table_rows(t_, n_):
+        return [[('name', '%s-%d' % (t_, i_)), ('formula', 'H2O'), ('vib_wavenumber', a('%s_w%d' % (t_, i_))),
+                 ('vib_wavenumber.1', a('%s_v%d' % (t_, i_))), ('potentialenergy', a('%s_E%d' % (t_, i_)))]
+                for i_ in range(n_)]
+
+    def table_records(t_, n_):
+        return [{'name': '%s-%d' % (t_, i_), 'elements': {'H': C(2), 'O': C(1)},
+                 'vib_wavenumbers': [a('%s_w%d' % (t_, i_)), a('%s_v%d' % (t_, i_))],
+                 'potentialenergy': a('%s_E%d' % (t_, i_))} for i_ in range(n_)]
+
+    def workbook(kw):
+        got = tables.get(request(kw))
+        if got is None:
+            return [[('name', 'a table nobody asked for')]]
+        return table_rows(*got)
+    seen = []
+    I = new_interp(repo, workbook, seen)
+    for k_, (label, given) in enumerate(schedule):
+        before = len(seen)
+        out = I.call_function(m, fn, [], dict(given))
+        label = 'call %d of %d in one session: %s' % (k_ + 1, len(schedule), label)
+        forwarded(label, given, seen[-1] if len(seen) == before + 1 else None)
+        t_, n_ = tables[request(dict({'skiprows': ListV([C(1)]), 'header': C(0)}, **given))]
+        want_recs = table_records(t_, n_)
+        ok = isinstance(out, ListV) and len(out) == n_
+        run.check(ok, 'REF.rows', 'excel.read_excel', label,
+                  '[%s] the worksheet asked for has %d data rows (%s ...): the call must return their records, got %s'
+                  % (label, n_, want_recs[0]['name'], show(out, 160)), m, fn)
+        if ok:
+            for i_, (rec, want) in enumerate(zip(out.items, want_recs)):
+                expect_record(run, m, fn, I, rec, want, '%s, row %d' % (label, i_ + 1))
     # --- sheet 1: ordinary + composition + lists, three rows with different subsets and empty cells ------------
     rows = [
-        [(' name ', '  H2O '), ('element.H', a('nH')), ('element.O ', a('nO')), ('vib_wavenumber', a('w1')),
-         ('vib_wavenumber.1', a('w2')), ('vib_wavenumber.2', NAN), (' rot_temperature', a('t1')),
-         (' potentialenergy  ', a('E1')), ('phase', NAN), ('list.sites', a('s1')), ('list.sites.1', a('s2')),
-         ('dict.misc.alpha', a('d1')), ('  dict.misc.beta ', a('d2'))],
-        [(' name ', 'CO'), ('element.H', NAN), ('element.O ', a('mO')), ('vib_wavenumber', NAN),
-         ('vib_wavenumber.1', NAN), ('vib_wavenumber.2', a('w3')), (' rot_temperature', NAN),
+        [(' name ', '  H2O '), ('element.H', ai('nH')), ('element.O ', a('nO')), ('vib_wavenumber', a('w1')),
+         ('vib_wavenumber.1', ai('w2')), ('vib_wavenumber.2', NAN), (' rot_temperature', ai('t1')),
+         (' potentialenergy  ', a('E1')), ('phase', NAN), ('list.sites', a('s1')), ('list.sites.1', ai('s2')),
+         ('dict.misc.alpha', a('d1')), ('  dict.misc.beta ', ai('d2'))],
+        [(' name ', 'CO'), ('element.H', NAN), ('element.O ', ai('mO')), ('vib_wavenumber', NAN),
+         ('vib_wavenumber.1', NAN), ('vib_wavenumber.2', ai('w3')), (' rot_temperature', NAN),
          (' potentialenergy  ', NAN), ('phase', ' G '), ('list.sites', NAN), ('list.sites.1', NAN),
          ('dict.misc.alpha', NAN), ('  dict.misc.beta ', a('d3'))],
         [(' name ', NAN), ('element.H', NAN), ('element.O ', NAN), ('vib_wavenumber', NAN),
@@ -171,10 +369,10 @@ def check(run, repo):
     # --- sheet 1b: repeated rot_temperature columns (pandas suffixes .1, .2) interleaved with repeated vib_wavenumber
     #     columns: both lists keep the column order, an empty cell in the middle is left out ------------------------
     rows = [
-        [('name', 'H2O'), ('rot_temperature', a('ta')), ('vib_wavenumber', a('wa')), (' rot_temperature.1 ', a('tb')),
-         ('vib_wavenumber.1', a('wb')), ('rot_temperature.2', a('tc')), ('vib_wavenumber.2', a('wc'))],
-        [('name', 'CO2'), ('rot_temperature', a('td')), ('vib_wavenumber', NAN), (' rot_temperature.1 ', NAN),
-         ('vib_wavenumber.1', a('wd')), ('rot_temperature.2', a('te')), ('vib_wavenumber.2', a('we'))],
+        [('name', 'H2O'), ('rot_temperature', a('ta')), ('vib_wavenumber', a('wa')), (' rot_temperature.1 ', ai('tb')),
+         ('vib_wavenumber.1', ai('wb')), ('rot_temperature.2', a('tc')), ('vib_wavenumber.2', ai('wc'))],
+        [('name', 'CO2'), ('rot_temperature', ai('td')), ('vib_wavenumber', NAN), (' rot_temperature.1 ', NAN),
+         ('vib_wavenumber.1', ai('wd')), ('rot_temperature.2', a('te')), ('vib_wavenumber.2', a('we'))],
     ]
     I, out, m, fn = run_reader(repo, rows)
     if isinstance(out, ListV) and len(out) == 2:
@@ -190,7 +388,7 @@ def check(run, repo):
     # --- sheet 1c: cells are arbitrary, so rows may agree in their name (or in every cell): still one record per row
     rows = [
         [('name', 'H2O'), ('phase', 'G'), ('potentialenergy', a('Ea'))],
-        [('name', 'H2O'), ('phase', 'L'), ('potentialenergy', a('Eb'))],
+        [('name', 'H2O'), ('phase', 'L'), ('potentialenergy', ai('Eb'))],
         [('name', 'CO'), ('phase', 'G'), ('potentialenergy', a('Ec'))],
         [('name', 'H2O'), ('phase', 'G'), ('potentialenergy', a('Ea'))],
     ]
@@ -205,12 +403,104 @@ def check(run, repo):
                                           ('first', 'second (same name)', 'third', 'fourth (identical to the first)')):
             expect_record(run, m, fn, I, rec, {'name': nm, 'phase': ph, 'potentialenergy': a(e_)},
                           'rows sharing a name: ' + lab)
+    # --- sheet 1d: names of list.* / dict.* fields and ordinary headers are arbitrary (they may end in a digit, like
+    #     the pandas suffix does); a list with more than ten columns (suffixes .10, .11) ------------------------------
+    t2 = ['list.T2'] + ['list.T2.%d' % i_ for i_ in range(1, 12)]
+    t2[4] = ' list.T2.4 '
+    rows = [
+        [('name', 'CO2(S)')] + [(h, (ai if i_ % 3 == 1 else a)('T2_%d' % i_)) for i_, h in enumerate(t2)] +
+        [('list.sites', ' fcc '), ('list.sites.1', 'hcp'), ('list.coverages_CO2', a('cov1')), ('dict.bonds2.C1', a('b1')),
+         ('dict.bonds2.O2', ai('b2')), ('phase2', 'S')],
+        [('name', 'CO(S)')] + [(h, NAN if i_ in (0, 5, 10) else a('U2_%d' % i_)) for i_, h in enumerate(t2)] +
+        [('list.sites', 'top'), ('list.sites.1', NAN), ('list.coverages_CO2', NAN), ('dict.bonds2.C1', NAN),
+         ('dict.bonds2.O2', a('b3')), ('phase2', NAN)],
+    ]
+    I, out, m, fn = run_reader(repo, rows)
+    if isinstance(out, ListV) and len(out) == 2:
+        expect_record(run, m, fn, I, out.items[0],
+                      {'name': 'CO2(S)', 'T2': [a('T2_%d' % i_) for i_ in range(12)], 'sites': ['fcc', 'hcp'],
+                       'coverages_CO2': [a('cov1')], 'bonds2': {'C1': a('b1'), 'O2': a('b2')}, 'phase2': 'S'},
+                      'list / dict / ordinary names ending in a digit, twelve list.T2 columns')
+        expect_record(run, m, fn, I, out.items[1],
+                      {'name': 'CO(S)', 'T2': [a('U2_%d' % i_) for i_ in range(12) if i_ not in (0, 5, 10)],
+                       'sites': ['top'], 'bonds2': {'O2': a('b3')}},
+                      'list / dict / ordinary names ending in a digit, empty cells in list.T2')
+    else:
+        run.fail('REF.rows', 'excel.read_excel', 'sheet 1d', 'unexpected result %s' % show(out, 120), m, fn)
+    # --- sheet 1f: text cells are arbitrary: what looks like a placeholder ('-', '?', '0') is a cell like any other,
+    #     in ordinary, list.* and dict.* columns and as a name; a numeric cell may be zero; only cells pandas reports
+    #     as null are empty (texts pandas itself reads as NaN - 'n/a', 'nan', 'None' - never arrive as text) --------
+    rows = [
+        [('name', 'CO2(S)'), ('notes', '-'), ('list.labels', '?'), ('list.labels.1', ' - '), ('dict.bonds.C', '-'),
+         ('dict.bonds.O', a('bO')), ('phase', '0'), ('potentialenergy', C(0)), ('element.Pt', C(0)),
+         ('vib_wavenumber', a('wz')), ('vib_wavenumber.1', C(0)), ('list.cov', C(0)), ('list.cov.1', a('cz')),
+         ('dict.shift.x', C(0)), ('nasa.a_low.2', C(0))],
+        [('name', '-'), ('notes', '?'), ('list.labels', NAN), ('list.labels.1', '0'), ('dict.bonds.C', '?'),
+         ('dict.bonds.O', NAN), ('phase', NAN), ('potentialenergy', NAN), ('element.Pt', NAN),
+         ('vib_wavenumber', NAN), ('vib_wavenumber.1', NAN), ('list.cov', NAN), ('list.cov.1', NAN),
+         ('dict.shift.x', NAN), ('nasa.a_low.2', NAN)],
+    ]
+    I, out, m, fn = run_reader(repo, rows)
+    if isinstance(out, ListV) and len(out) == 2:
+        expect_record(run, m, fn, I, out.items[0],
+                      {'name': 'CO2(S)', 'notes': '-', 'labels': ['?', '-'], 'bonds': {'C': '-', 'O': a('bO')},
+                       'phase': '0', 'potentialenergy': C(0), 'elements': {'Pt': C(0)},
+                       'vib_wavenumbers': [a('wz'), C(0)], 'cov': [C(0), a('cz')], 'shift': {'x': C(0)},
+                       'a_low': zeros()},
+                      "text cells '-', '?', '0' and numeric cells equal to zero in ordinary, list, dict and special columns")
+        expect_record(run, m, fn, I, out.items[1],
+                      {'name': '-', 'notes': '?', 'labels': ['0'], 'bonds': {'C': '?'}},
+                      "text cells: a species named '-', next to empty cells")
+    else:
+        run.fail('REF.rows', 'excel.read_excel', 'sheet 1f', 'unexpected result %s' % show(out, 120), m, fn)
+    # --- sheet 1e: vib_wavenumber repeated up to 30 times (pandas suffixes .1 ... .29), rot_temperature 12 times,
+    #     interleaved, some headers padded, integer and float cells, holes at the ends and across the one/two-digit
+    #     suffix boundary; the thorough tier runs every number of columns from 1 to 30 --------------------------------
+
+    def numbered(base, i_):
+        h = base if i_ == 0 else '%s.%d' % (base, i_)
+        return ' %s  ' % h if i_ % 7 == 3 else h
+
+    def long_sheet(nv, nr):
+        cols = []
+        for i_ in range(max(nv, nr)):
+            if i_ < nv:
+                cols.append(('v', i_, numbered('vib_wavenumber', i_)))
+            if i_ < nr:
+                cols.append(('r', i_, numbered('rot_temperature', i_)))
+        holes = ({}, {'v': {0, 9, 10, nv - 1}, 'r': {1, 10}}, {'v': set(range(0, 10)), 'r': set(range(0, 11))})
+        rows_, wants = [], []
+        for ri, hole in enumerate(holes):
+            cells = [('name', 'S%d' % ri)]
+            want = {'name': 'S%d' % ri}
+            for kind, i_, h in cols:
+                if i_ in hole.get(kind, ()):
+                    cells.append((h, NAN))
+                    continue
+                x = (ai if (i_ + ri) % 2 else a)('%s%d_%d_%dx%d' % (kind, ri, i_, nv, nr))
+                cells.append((h, x))
+                want.setdefault('vib_wavenumbers' if kind == 'v' else 'rot_temperatures', []).append(x)
+            cells.append(('potentialenergy', a('EL%d' % ri)))
+            want['potentialenergy'] = a('EL%d' % ri)
+            rows_.append(cells)
+            wants.append(want)
+        return rows_, wants
+    for nv, nr in [(30, 12), (12, 1)] + ([(n_, (n_ * 7) % 13) for n_ in range(1, 30)] if run.tier == 'thorough' else []):
+        rows, wants = long_sheet(nv, nr)
+        I, out, m, fn = run_reader(repo, rows)
+        lab = '%d vib_wavenumber and %d rot_temperature columns' % (nv, nr)
+        if isinstance(out, ListV) and len(out) == len(wants):
+            for rec, want, what in zip(out.items, wants, ('every cell filled', 'holes at both ends and at .9/.10',
+                                                          'only the two-digit suffixes filled')):
+                expect_record(run, m, fn, I, rec, want, '%s: %s' % (lab, what))
+        else:
+            run.fail('REF.rows', 'excel.read_excel', lab, 'unexpected result %s' % show(out, 120), m, fn)
     # --- sheet 2: formula, NASA coefficients ---------------------------------------------------------------------
     rows = [
-        [('name', 'CH3OH'), ('formula', 'CH3OH'), ('nasa.a_low.0', a('l0')), ('nasa.a_low.6', a('l6')),
-         ('nasa.a_high.3', a('h3')), ('T_low', a('Tl'))],
+        [('name', 'CH3OH'), ('formula', 'CH3OH'), ('nasa.a_low.0', a('l0')), ('nasa.a_low.6', ai('l6')),
+         ('nasa.a_high.3', ai('h3')), ('T_low', a('Tl'))],
         [('name', 'Al2O3'), ('formula', 'Al2O3'), ('nasa.a_low.0', NAN), ('nasa.a_low.6', NAN),
-         ('nasa.a_high.3', NAN), ('T_low', a('Tl2'))],
+         ('nasa.a_high.3', NAN), ('T_low', ai('Tl2'))],
     ]
     I, out, m, fn = run_reader(repo, rows)
     if isinstance(out, ListV) and len(out) == 2:
@@ -225,7 +515,7 @@ def check(run, repo):
         run.fail('REF.rows', 'excel.read_excel', 'sheet 2', 'unexpected result %s' % show(out, 120), m, fn)
     # --- sheet 2b: rows that share one formula and add their own element.X cells: each row owns its composition ----
     rows = [
-        [('name', 'H2O(S)'), ('formula', 'H2O'), ('element.Pt', a('nPt'))],
+        [('name', 'H2O(S)'), ('formula', 'H2O'), ('element.Pt', ai('nPt'))],
         [('name', 'H2O'), ('formula', 'H2O'), ('element.Pt', NAN)],
         [('name', 'H2O(T)'), ('formula', 'H2O'), ('element.Pt', a('mPt'))],
     ]
@@ -240,10 +530,15 @@ def check(run, repo):
     # --- sheet 3: model presets and per-mode models ----------------------------------------------------------------
     I0 = Interp(repo)
     from ..xlate import Frame
-    presets = Frame(I0, sm, {}, None, None).ev(__import__('ast').parse('presets', mode='eval').body)
-    preset_names = []
-    if hasattr(presets, 'node'):
-        preset_names = [k.value for k in presets.node.keys]
+    import ast as _ast
+
+    def table(expr):
+        return Frame(I0, sm, {}, None, None).ev(_ast.parse(expr, mode='eval').body)
+    presets = table('presets')
+    # the names are those of the evaluated table (a display, a dict(...) call, a table filled by assignments)
+    names_ = table('list(presets.keys())')
+    preset_names = [k for k in names_.items if isinstance(k, str)] if isinstance(names_, ListV) else []
+    presets_node = getattr(presets, 'node', None)
     run.floor('presets', len(preset_names), 5)
     # the rule's own copy of the documented table (docs/source/api/statmech/statmech.rst, "Presets": the attributes
     # each preset sets); the 'required' / 'optional' reminders are not part of that table and are taken from the
@@ -276,9 +571,10 @@ def check(run, repo):
         return k.endswith('_model') or k == 'n_degrees'
     for pname in doc_presets:
         run.check(pname in preset_names, 'TABLE.preset-class', 'statmech.presets', pname,
-                  'the documented preset %r is missing from the presets table' % pname, sm, presets.node)
+                  'the documented preset %r is missing from the presets table' % pname, sm, presets_node)
+    contribs = {}
     for pname in preset_names:
-        fresh = Frame(I0, sm, {}, None, None).ev(__import__('ast').parse('presets[%r]' % pname, mode='eval').body)
+        fresh = table('presets[%r]' % pname)
         doc = documented(pname) if pname in doc_presets else None
         # what the preset contributes to a record: documented attributes + the reminders of the fresh table
         contrib = {}
@@ -288,6 +584,7 @@ def check(run, repo):
         if doc is not None:
             contrib.update(doc)
         contrib['model'] = SM
+        contribs[pname] = contrib
         # two rows with the same preset: the first fills a column left of statmech_model (symmetrynumber) and one
         # right of it that the preset may also set (n_degrees); the second leaves both empty
         rows = [[('symmetrynumber', a('sy')), ('statmech_model', ' %s ' % pname.upper() if pname == 'idealgas' else pname),
@@ -313,7 +610,7 @@ def check(run, repo):
             run.check(okm, 'TABLE.preset-class', 'statmech.presets', '%s: documented attributes' % pname,
                       'preset %s sets %s, the documentation says %s' % (
                           pname, {k: show(v, 40) for k, v in sorted(got.items())},
-                          {k: show(v, 40) for k, v in sorted(doc.items())}), sm, presets.node)
+                          {k: show(v, 40) for k, v in sorted(doc.items())}), sm, presets_node)
         else:
             for k, v in fresh.d.items():
                 if k.endswith('_model'):
@@ -322,7 +619,7 @@ def check(run, repo):
                     okm = isinstance(v, ClassInfo) and (v.module.name in (modname, 'pmutt.statmech', 'pmutt.statmech.lsr'))
                     run.check(okm, 'TABLE.preset-class', 'statmech.presets', '%s.%s' % (pname, k),
                               'preset %s names %s for %s, which is not a class of that mode\'s module'
-                              % (pname, show(v), k), sm, presets.node)
+                              % (pname, show(v), k), sm, presets_node)
     r = run_reader(repo, [[('statmech_model', 'no such preset')]])
     run.check(isinstance(r[1], Raised) and r[1].exc == 'ValueError', 'PATH.unknown-preset', 'excel.set_statmech_model',
               'unknown preset', 'an unknown preset must raise ValueError (got %s)' % show(r[1]), m,
@@ -351,19 +648,57 @@ def check(run, repo):
         run.check(isinstance(out, Raised) and out.exc == 'ValueError', 'PATH.unknown-model', 'excel.set_%s_model' % mode,
                   'unknown name', 'an unknown %s model name must raise ValueError (got %s)' % (mode, show(out, 60)), m,
                   m.functions['set_%s_model' % mode])
-    # the row's own value wins over the preset, whatever the column order
-    for order in (0, 1):
-        cells = [('statmech_model', 'idealgas'), ('vib_model', 'QRRHOVib')]
-        if order:
-            cells.reverse()
-        I, out, m, fn = run_reader(repo, [cells])
-        want_cls = repo.module('pmutt.statmech.vib').classes['QRRHOVib']
-        got = out.items[0].d.get('vib_model') if isinstance(out, ListV) and len(out) == 1 else None
-        run.check(got is want_cls or order == 0, 'REF.record', 'excel.set_statmech_model',
-                  'explicit model before preset',
-                  'a vib_model cell placed before statmech_model is overwritten by the preset (got %s)' % show(got), m,
-                  m.functions['set_statmech_model'])
-
+    # the row's own model cell wins over the preset, whatever the column order: for every mode a documented name that
+    # differs from what the preset sets, and the EmptyMode fallback, right and left of statmech_model
+    def cls_of(modname, cname):
+        c_ = repo.module(modname).classes.get(cname)
+        if c_ is None:
+            raise AnchorError('%s.%s not found' % (modname, cname))
+        return c_
+    wins = (('trans', 'idealgas', ' EmptyMode', EM), ('vib', 'idealgas', ' QRRHOVib ', cls_of(S_ + '.vib', 'QRRHOVib')),
+            ('vib', 'idealgas', 'EmptyMode', EM), ('vib', 'harmonic', 'DebyeVib', cls_of(S_ + '.vib', 'DebyeVib')),
+            ('rot', 'idealgas', 'emptymode', EM), ('elec', 'idealgas', 'LSR', cls_of(S_ + '.lsr', 'LSR')),
+            ('elec', 'electronic', 'EmptyMode', EM), ('elec', 'constant', 'GroundStateElec', cls_of(S_ + '.elec', 'GroundStateElec')),
+            ('nucl', 'placeholder', 'EmptyNucl', cls_of(S_ + '.nucl', 'EmptyNucl')),
+            ('trans', 'placeholder', 'FreeTrans', cls_of(S_ + '.trans', 'FreeTrans')),
+            ('rot', 'placeholder', 'RigidRotor ', cls_of(S_ + '.rot', 'RigidRotor')))
+    for mode, pname, cell, wc in wins:
+        if pname not in contribs or pname not in doc_presets:
+            continue                        # reported above (TABLE.preset-class: documented preset missing)
+        key = '%s_model' % mode
+        for left in (False, True):
+            cells = [('name', 'X'), ('statmech_model', pname), (key, cell), ('potentialenergy', a('Ew'))]
+            if left:
+                cells[1], cells[2] = cells[2], cells[1]
+            I, out, m, fn = run_reader(repo, [cells])
+            # right of the preset the setter of the mode must store the cell; left of it the preset must not overwrite
+            setter = 'set_statmech_model' if left else 'set_%s_model' % mode
+            label = '%s=%s %s of statmech_model=%s' % (key, cell.strip(), 'left' if left else 'right', pname)
+            if isinstance(out, ListV) and len(out) == 1:
+                want = dict(contribs[pname], name='X', potentialenergy=a('Ew'))
+                want[key] = wc
+                expect_record(run, m, fn, I, out.items[0], want, label, setter)
+            else:
+                run.fail('REF.record', 'excel.' + setter, label, 'unexpected result %s' % show(out, 120), m,
+                         m.functions[setter])
+    # every mode of one row given explicitly, statmech_model in the middle; a second row with the bare preset
+    if 'idealgas' in contribs and 'idealgas' in doc_presets:
+        rows = [[('vib_model', 'EinsteinVib'), ('trans_model', 'EmptyMode'), ('statmech_model', 'idealgas'),
+                 ('rot_model', 'EmptyMode'), ('elec_model', 'ExtendedLSR'), ('nucl_model', 'EmptyNucl')],
+                [('vib_model', NAN), ('trans_model', NAN), ('statmech_model', 'idealgas'), ('rot_model', NAN),
+                 ('elec_model', NAN), ('nucl_model', NAN)]]
+        I, out, m, fn = run_reader(repo, rows)
+        if isinstance(out, ListV) and len(out) == 2:
+            expect_record(run, m, fn, I, out.items[0],
+                          dict(contribs['idealgas'], vib_model=cls_of(S_ + '.vib', 'EinsteinVib'), trans_model=EM,
+                               rot_model=EM, elec_model=cls_of(S_ + '.lsr', 'ExtendedLSR'),
+                               nucl_model=cls_of(S_ + '.nucl', 'EmptyNucl')),
+                          'all five model cells around statmech_model=idealgas', 'set_statmech_model')
+            expect_record(run, m, fn, I, out.items[1], dict(contribs['idealgas']),
+                          'bare preset in the row after a row with five model cells', 'set_statmech_model')
+        else:
+            run.fail('REF.record', 'excel.set_statmech_model', 'all five model cells around statmech_model=idealgas',
+                     'unexpected result %s' % show(out, 120), m, m.functions['set_statmech_model'])
 
 X_ = 'pmutt/io/excel.py'
 MUTANTS = [
@@ -395,5 +730,51 @@ MUTANTS = [
      'edits': [('pmutt/statmech/__init__.py', "    'harmonic': {\n        'model': StatMech,\n        'vib_model': vib.HarmonicVib,", "    'harmonic': {\n        'model': StatMech,\n        'vib_model': vib.QRRHOVib,")]},
     {'name': 'harmonic preset also sets a rotational model', 'expect': ('REF.record', 'set_statmech_model'),
      'edits': [('pmutt/statmech/__init__.py', "    'harmonic': {\n        'model': StatMech,\n        'vib_model': vib.HarmonicVib,", "    'harmonic': {\n        'model': StatMech,\n        'rot_model': rot.RigidRotor,\n        'vib_model': vib.HarmonicVib,")]},
+    {'name': 'vib_wavenumber headers matched with a pattern that allows one digit after the dot',
+     'expect': ('REF.record', 'read_excel'),
+     'edits': [(X_, "import os\n", "import os\nimport re\n"),
+               (X_, "def read_excel(io,", "_VIB_WAVENUMBER_COL = re.compile(r'vib_wavenumber(\\.\\d)?$')\n\n\ndef read_excel(io,"),
+               (X_, "            elif 'vib_wavenumber' in col:", "            elif _VIB_WAVENUMBER_COL.match(col):")]},
+    {'name': 'rot_temperature headers accepted up to suffix .9 only', 'expect': ('REF.record', 'read_excel'),
+     'edits': [(X_, "            elif 'rot_temperature' in col:", "            elif col in ('rot_temperature',) + tuple('rot_temperature.%d' % i for i in range(1, 10)):")]},
+    {'name': 'vib_model cell does not overwrite what the preset has set', 'expect': ('REF.record', 'set_vib_model'),
+     'edits': [(X_, "        output_structure['vib_model'] = getattr(vib, model)\n    except AttributeError:", "        output_structure.setdefault('vib_model', getattr(vib, model))\n    except AttributeError:")]},
+    {'name': 'nucl_model cell does not overwrite what the preset has set', 'expect': ('REF.record', 'set_nucl_model'),
+     'edits': [(X_, "        output_structure['nucl_model'] = getattr(nucl, model)\n    except AttributeError:", "        output_structure.setdefault('nucl_model', getattr(nucl, model))\n    except AttributeError:")]},
+    {'name': 'integer-typed wavenumbers dropped', 'expect': ('REF.record', 'read_excel'),
+     'edits': [(X_, "    try:\n        output_structure['vib_wavenumbers'].append(value)", "    if not isinstance(value, float):\n        return\n    try:\n        output_structure['vib_wavenumbers'].append(value)")]},
+    {'name': 'integer-typed rotational temperatures dropped', 'expect': ('REF.record', ''),
+     'edits': [(X_, "    try:\n        output_structure['rot_temperatures'].append(value)", "    if not isinstance(value, float):\n        return\n    try:\n        output_structure['rot_temperatures'].append(value)")]},
+    {'name': 'integer-typed element counts dropped', 'expect': ('REF.record', ''),
+     'edits': [(X_, "    element = header.split(delimiter)[-1]\n", "    element = header.split(delimiter)[-1]\n    if not isinstance(value, float):\n        return\n")]},
+    {'name': 'parsed tables cached under a key without the sheet name', 'expect': ('REF.rows', 'read_excel'),
+     'edits': [(X_, "def read_excel(io,", "_parsed_tables = {}\n\n\ndef read_excel(io,"),
+               (X_, "    input_data = pd.read_excel(io=io,\n                               skiprows=skiprows,\n                               header=header,\n                               **kwargs)\n",
+                    "    cache_key = (io, header, tuple(skiprows) if skiprows else ())\n    try:\n        input_data = _parsed_tables[cache_key]\n    except KeyError:\n        input_data = pd.read_excel(io=io, skiprows=skiprows, header=header, **kwargs)\n        _parsed_tables[cache_key] = input_data\n")]},
+    {'name': 'parsed tables cached per workbook and sheet (rows to skip and header row forgotten)',
+     'expect': ('FWD.pandas', 'read_excel'),
+     'edits': [(X_, "def read_excel(io,", "_parsed_tables = {}\n\n\ndef read_excel(io,"),
+               (X_, "    input_data = pd.read_excel(io=io,\n                               skiprows=skiprows,\n                               header=header,\n                               **kwargs)\n",
+                    "    cache_key = '{}|{}'.format(io, kwargs.get('sheet_name', 0))\n    try:\n        input_data = _parsed_tables[cache_key]\n    except KeyError:\n        input_data = pd.read_excel(io=io, skiprows=skiprows, header=header, **kwargs)\n        _parsed_tables[cache_key] = input_data\n")]},
+    {'name': 'list number removed whenever the header ends in a digit', 'expect': ('REF.record', 'read_excel'),
+     'edits': [(X_, "                if '.' in header:\n                    i = header.rfind('.')", "                if header[-1].isdigit():\n                    i = header.rfind('.')")]},
+    {'name': 'placeholder texts treated as empty cells', 'expect': ('REF.record', 'read_excel'),
+     'edits': [(X_, "            if pd.isnull(cell_data):\n", "            if pd.isnull(cell_data) or cell_data in ('', '-', 'n/a'):\n")]},
+    {'name': 'sheet_name swallowed by an explicit parameter', 'expect': ('FWD.pandas', 'read_excel'),
+     'edits': [(X_, "               include_imaginary=False,\n               **kwargs):", "               include_imaginary=False,\n               sheet_name=0,\n               **kwargs):")]},
 ]
-EQUIV = []
+# behaviour-preserving rewrites (white-box review round 2, part B, reduced to their essential edits)
+EQUIV = [
+    {'name': 'sheet_name as explicit keyword-only parameter with the default of pandas, handed on',
+     'edits': [(X_, "               include_imaginary=False,\n               **kwargs):", "               include_imaginary=False,\n               *,\n               sheet_name=0,\n               **kwargs):"),
+               (X_, "                               header=header,\n                               **kwargs)", "                               header=header,\n                               sheet_name=sheet_name,\n                               **kwargs)")]},
+    {'name': 'empty cells removed with Series.dropna() instead of the per-cell null test',
+     'edits': [(X_, "        for col, cell_data in row_data.items():", "        for col, cell_data in row_data.dropna().items():"),
+               (X_, "            if pd.isnull(cell_data):\n                # Skip empty cells\n                continue\n            elif 'Unnamed' in col:", "            if 'Unnamed' in col:")]},
+    {'name': 'pd.isna, the documented alias of pd.isnull', 'edits': [(X_, "            if pd.isnull(cell_data):", "            if pd.isna(cell_data):")]},
+    {'name': 'an empty table returns early', 'edits': [(X_, "    thermos_out = []\n", "    thermos_out = []\n    if input_data.empty or len(input_data) == 0:\n        return thermos_out\n")]},
+    {'name': 'rows taken from DataFrame.to_dict("records")',
+     'edits': [(X_, "    for row, row_data in input_data.iterrows():\n", "    for row_data in input_data.to_dict('records'):\n")]},
+    {'name': 'electronic preset written as a dict(...) call',
+     'edits': [('pmutt/statmech/__init__.py', "    'electronic': {\n        'model': StatMech,\n        'elec_model': elec.GroundStateElec,\n        'required': ('potentialenergy', 'spin'),\n    },", "    'electronic': dict(model=StatMech, elec_model=elec.GroundStateElec, required=('potentialenergy', 'spin')),")]},
+]
